@@ -208,8 +208,17 @@ def run(project, chk):
                     chk.fail("P5", fi.short, norm_text(n), project.loc(m, n), "hash() of a value: str hashes differ between interpreter processes")
                 if qc == "builtins.id":
                     par = pm.get(n)
-                    fine = (isinstance(par, ast.Subscript) and par.slice is n) or (isinstance(par, ast.Compare) and par.left is n and all(isinstance(o, (ast.In, ast.NotIn, ast.Eq, ast.NotEq)) for o in par.ops)) \
-                        or (isinstance(par, ast.Call) and isinstance(par.func, ast.Attribute) and par.func.attr in ("get", "pop", "setdefault", "__contains__", "__getitem__") and par.args and par.args[0] is n)
+
+                    def as_key(x):
+                        p2 = pm.get(x)
+                        return (isinstance(p2, ast.Subscript) and p2.slice is x) or (isinstance(p2, ast.Compare) and p2.left is x and all(isinstance(o, (ast.In, ast.NotIn, ast.Eq, ast.NotEq)) for o in p2.ops)) \
+                            or (isinstance(p2, ast.Call) and isinstance(p2.func, ast.Attribute) and p2.func.attr in ("get", "pop", "setdefault", "__contains__", "__getitem__") and p2.args and p2.args[0] is x)
+                    fine = as_key(n)
+                    if not fine and isinstance(par, ast.Assign) and len(par.targets) == 1 and isinstance(par.targets[0], ast.Name) and par.value is n:
+                        # key = id(obj): fine when the local is itself only ever used as a key
+                        kname = par.targets[0].id
+                        reads = [x for x in own_nodes(fi.node) if isinstance(x, ast.Name) and x.id == kname and isinstance(x.ctx, ast.Load)]
+                        fine = bool(reads) and all(as_key(x) for x in reads)
                     chk.check(fine, "P5", fi.short, norm_text(par if par is not None else n), project.loc(m, n),
                               "id() is used only as a dictionary key / membership test", how="parent is a subscript index or an `in` test",
                               message="id() of an object used as a value: depends on memory layout")
